@@ -40,7 +40,7 @@ def value_lines(v):
     return [l.strip(b" \t\n\v\f\r") for l in v.split(b"\n") if l.strip(b" \t\n\v\f\r")]
 
 def gen(rng, tier):
-    n = 750 if tier == "quick" else 20000
+    n = 1500 if tier == "quick" else 20000
     out = []
     for _ in range(n):
         items = [rand_item(rng)[0] for _ in range(rng.randrange(1, 6))]
